@@ -2,6 +2,7 @@ package sym
 
 import (
 	"fmt"
+	"regexp"
 	"unsafe"
 	"go/token"
 	"go/types"
@@ -30,6 +31,7 @@ func init() {
 		vpkg + "Int32":    func(fr *frame, a []value) value { return fr.in.fresh(str(a[0]), types.Int32) },
 		vpkg + "Int":      func(fr *frame, a []value) value { return fr.in.fresh(str(a[0]), types.Int) },
 		vpkg + "Byte":     func(fr *frame, a []value) value { return fr.in.fresh(str(a[0]), types.Uint8) },
+		vpkg + "Float64":  func(fr *frame, a []value) value { return fr.in.fresh(str(a[0]), types.Float64) },
 		vpkg + "Bool":     func(fr *frame, a []value) value { return fr.in.fresh(str(a[0]), types.Bool) },
 		vpkg + "IntRange": vIntRange,
 		vpkg + "Choice":   vChoice,
@@ -197,6 +199,30 @@ func init() {
 			return fr.in.newError(fr.in.sprintf(a[1], a[2].([]value)))
 		},
 		"google.golang.org/grpc/status.Error": func(fr *frame, a []value) value { return fr.in.newError(a[1]) },
+		"path/filepath.Abs": func(fr *frame, a []value) value { return tuple{a[0], iface{}} },
+		"path/filepath.Join": func(fr *frame, a []value) value {
+			var parts []string
+			for _, p := range a[0].([]value) {
+				parts = append(parts, concStr(p, "filepath.Join"))
+			}
+			return pathJoin(parts)
+		},
+		"internal/bytealg.CountString": func(fr *frame, a []value) value {
+			return strings.Count(concStr(a[0], "CountString"), string([]byte{a[1].(uint8)}))
+		},
+		"internal/bytealg.IndexByteString": func(fr *frame, a []value) value {
+			return strings.IndexByte(concStr(a[0], "IndexByteString"), a[1].(uint8))
+		},
+		"internal/bytealg.IndexString": func(fr *frame, a []value) value {
+			return strings.Index(concStr(a[0], "IndexString"), concStr(a[1], "IndexString"))
+		},
+		"internal/bytealg.LastIndexByteString": func(fr *frame, a []value) value {
+			return strings.LastIndexByte(concStr(a[0], "LastIndexByteString"), a[1].(uint8))
+		},
+		"regexp.MatchString": func(fr *frame, a []value) value {
+			ok, err := regexp.MatchString(concStr(a[0], "regexp.MatchString"), concStr(a[1], "regexp.MatchString"))
+			return tuple{ok, fr.in.hostErr(err)}
+		},
 		"os.Hostname": func(fr *frame, a []value) value { return tuple{"verif-host", iface{}} },
 		"os.Getenv":   func(fr *frame, a []value) value { return "" },
 		"time.Sleep":         func(fr *frame, a []value) value { return nil },
